@@ -114,6 +114,96 @@ def run(ctx):
     _history(ctx)
 
 
+QEMU_TEXTS = (
+    '1.5G', '10 KiB', '2.0E', '512', '1e+3', '1.1e+2 M',
+    '64K (65536 bytes)', '1 (2 bytes)', '3 B', '3B', '2 k', 'junk', '1.5 TB',
+    '7 Z', '9Y', '4R', '5Q', '1.5', '12 bytes', '0',
+    '197K (200704 bytes)', '8T', '2M', '6 Mi', '1 b', '2K (0 bytes)',
+    '18446744073709551615', '.5G', '.25 MiB', '0.5G', '1.K', 'x.5M',
+    '5.e+1', '1E+3 K', '1e-1', ' 7M', '7 M ', 'size 3K', '1.5kB', '1,5G',
+    '1.5E', '2.5EB', '0.5 EiB', '1.25E (7 bytes)', '7.5Ei', 'None',
+    'unavailable', 'none', '8 Kb', '16 Mbit', '9 bit', '8 Kib')
+
+
+def _qemu_public(ctx, cls):
+    """R10.9: the three size attributes of QemuImgInfo built from human
+    output, through the constructor only."""
+    import re as _re
+    from ..core.table import inexact_notes
+    rep, world = ctx.report, ctx.world
+    rep.rule('R10.9', 'QemuImgInfo(human output): virtual_size, disk_size '
+             'and cluster_size are the byte counts their lines state ((N '
+             'bytes) first, bare number, single-letter unit gets B, IEC '
+             'arithmetic, None / unavailable -> 0, ValueError otherwise)')
+    rep.analysed('imageutils.qemu.QemuImgInfo.__init__')
+    size_rx = _re.compile(r"([0-9]+[eE][-+][0-9]+|\d*\.?\d+)"
+                          r"\s*(\w+)?(\s*\(\s*(\d+)\s+bytes\s*\))?",
+                          _re.I)
+
+    def want(d):
+        if d in ('None', 'unavailable'):
+            return ('return', 0)
+        m = size_rx.search(d)
+        if not m:
+            return ('raise', 'ValueError')
+        mag, unit = m.group(1), m.group(2)
+        if 'e' in mag.lower():
+            mag = format(float(mag), '.0f')
+        if m.group(3):
+            return ('return', int(m.group(4)))
+        if not unit:
+            try:
+                return ('return', int(mag))
+            except ValueError:
+                return ('raise', 'ValueError')
+        if len(unit) == 1 and unit != 'B':
+            unit += 'B'
+        return ref_string_to_bytes(mag + unit, 'IEC', True)
+
+    def setup(interp):
+        rxmodel.install(interp)
+    bad = {}
+    n = 0
+    for label, attr in (('virtual size', 'virtual_size'),
+                        ('disk size', 'disk_size'),
+                        ('cluster_size', 'cluster_size')):
+        for text in QEMU_TEXTS:
+            cmd = 'image: x.img\n%s: %s\nfile format: raw\n' % (label, text)
+
+            def thunk(interp, cmd=cmd, attr=attr):
+                obj = interp.call(cls, [K(cmd)], {'format': K('human')})
+                return interp.get_attr(obj, attr)
+            outs, _i = extract(world, thunk, setup=setup, depth=7)
+            key = 'QemuImgInfo.%s' % attr
+            if inexact_notes(outs) or len(outs) != 1:
+                rep.undecided('R10.9', key, 'line %r: %d paths %s' % (
+                    '%s: %s' % (label, text), len(outs),
+                    inexact_notes(outs)))
+                bad[attr] = None
+                break
+            o = outs[0]
+            got = ('raise', o.exc_class) if o.kind == 'raise' else (
+                'return', o.value.v if isinstance(o.value, K) else
+                show(o.value))
+            w = want(text.strip())
+            n += 1
+            ok = got[0] == w[0] and (
+                got[1] == w[1] if got[0] == 'raise' else
+                (type(got[1]) is int and got[1] == w[1]))
+            if not ok and attr not in bad:
+                bad[attr] = ('%s: %s' % (label, text), got, w)
+    rep.evaluations += n
+    for attr in ('virtual_size', 'disk_size', 'cluster_size'):
+        if attr in bad and bad[attr] is None:
+            continue
+        b = bad.get(attr)
+        rep.check('R10.9', 'QemuImgInfo.%s' % attr, b is None,
+                  'the attribute is the byte count of the line on %d texts'
+                  % len(QEMU_TEXTS) if b is None else
+                  'for the line %r the attribute is %s, required %s' % (
+                      b[0], b[1], b[2]), case=None if b is None else b[0])
+
+
 def _history(ctx):
     from ..core.table import history_compare
     rep, world = ctx.report, ctx.world
@@ -227,6 +317,15 @@ def _table(ctx):
 def _qemu(ctx):
     rep, world = ctx.report, ctx.world
     cls = world.cls('imageutils.qemu', 'QemuImgInfo')
+    _qemu_public(ctx, cls)
+    if cls.lookup('_extract_bytes')[0] is None or \
+            cls.lookup('_extract_details')[0] is None:
+        # the private helpers the finer tables are extracted from are gone
+        # (renamed, merged): the public form above decides the same fields
+        rep.case({'QemuImgInfo helpers': 'not under their pinned names; '
+                  'decided through the constructor (R10.9)'},
+                 ('qemu', 'helpers-unread'))
+        return
     rep.analysed('imageutils.qemu.QemuImgInfo._extract_bytes')
     details = T('sym', 'details')
     from ..core.values import Obj
